@@ -2,6 +2,7 @@ package main
 
 import (
 	"go/ast"
+	"go/constant"
 	"go/token"
 	"go/types"
 )
@@ -487,6 +488,7 @@ func c01(c *Ctx) {
 		}
 	}
 
+	defer c01More(c, ix)
 	// R8 flush marker handling
 	c.Rule("R8", "E3", "a forceFlushSpan marker taken from queue is never appended to batch; processQueue closes its channel", 2)
 	ffs := lookupType(ix.Pkg, "forceFlushSpan")
@@ -594,6 +596,181 @@ func c01(c *Ctx) {
 			c.Check(bad == "" && closed, "R8", key, at(ix.M, fn.Pos()), "marker branch never appends to batch"+map[bool]string{true: " and closes the flush channel", false: ""}[fn == pq],
 				"flush marker mishandled (appended to batch, or its channel not closed before the next receive) "+bad)
 		}
+	}
+}
+
+// c01More: clauses added after the first seeded rounds (flush-marker wait in ForceFlush, final export in drainQueue,
+// timer-triggered export, enqueue dispatch on BlockOnQueueFull).
+func c01More(c *Ctx, ix *PkgIndex) {
+	info := ix.Pkg.TypesInfo
+	exportSpans := ix.Func("(*batchSpanProcessor).exportSpans")
+	if exportSpans == nil {
+		return
+	}
+	isExport := callToDecl(info, exportSpans)
+	c.Rule("R9", "E3 ordering over select-clause edges", "ForceFlush exports only after the flush marker it enqueued was acknowledged; drainQueue makes a final export on every path; the timer arm exports; enqueue dispatches on BlockOnQueueFull", 4)
+	if ff := c.Fn(ix, "R9", "(*batchSpanProcessor).ForceFlush"); ff != nil {
+		g := ix.FG(ff)
+		enq := ix.Func("(*batchSpanProcessor).enqueueBlockOnQueueFull")
+		// the flush channel: the `flushed:` field value of the forceFlushSpan literal
+		var flushCh types.Object
+		inspectNoLit(ff.Body(), func(n ast.Node) bool {
+			if cl, ok := n.(*ast.CompositeLit); ok {
+				for _, el := range cl.Elts {
+					if kv, ok := el.(*ast.KeyValueExpr); ok {
+						if id, ok := kv.Key.(*ast.Ident); ok && id.Name == "flushed" {
+							flushCh = objOf(info, kv.Value)
+						}
+					}
+				}
+			}
+			return true
+		})
+		// vertices that start the export: a go statement / call whose literal (or itself) calls exportSpans
+		starts := g.Match(func(n ast.Node) bool {
+			if isExport(n) {
+				return true
+			}
+			if gs, ok := n.(*ast.GoStmt); ok {
+				found := false
+				ast.Inspect(gs, func(m ast.Node) bool {
+					if isExport(m) {
+						found = true
+					}
+					return true
+				})
+				return found
+			}
+			return false
+		})
+		enqCalls := g.Match(callToDecl(info, enq))
+		good := flushCh != nil && len(starts) >= 1 && len(enqCalls) == 1
+		why := "anchors not found"
+		if good {
+			// negative form: from the enqueue call, an export start is reachable only across (a) the edge on which the enqueue failed,
+			// or (b) the select clause that received from the flush channel
+			seen, par := g.Reach([]*GNode{enqCalls[0]}, nil, func(e *GEdge) bool {
+				if edgeImplies(e, func(cnd ast.Expr, pol int) bool { return pol < 0 && callToDecl(info, enq)(cnd) }) {
+					return true
+				}
+				if e.Comm != nil && e.Comm.Comm != nil {
+					hit := false
+					ast.Inspect(e.Comm.Comm, func(n ast.Node) bool {
+						if isRecvFrom(n, func(x ast.Expr) bool { return sameVar(info, x, flushCh) }) {
+							hit = true
+						}
+						return true
+					})
+					return hit
+				}
+				return false
+			})
+			for _, st := range starts {
+				if seen[st] {
+					good = false
+					why = "the export can start while spans queued before ForceFlush are still in the queue: " + g.pathLines(par, st)
+				}
+			}
+		}
+		c.Check(good, "R9", "sdk/trace|(*batchSpanProcessor).ForceFlush|export starts only after <-flushCh (or when the marker could not be enqueued)", at(ix.M, ff.Pos()),
+			"everything queued before the call has been batched when the export runs", "ForceFlush can return before spans ended earlier were exported: "+why)
+	}
+	if dq := c.Fn(ix, "R9", "(*batchSpanProcessor).drainQueue"); dq != nil {
+		g := ix.FG(dq)
+		ex := toSet(g.Match(isExport))
+		// every path to the exit passes an exportSpans call that is NOT followed by another receive from queue (the final export)
+		fQueue := lookupField(ix.Pkg, "batchSpanProcessor", "queue")
+		finals := map[*GNode]bool{}
+		for x := range ex {
+			s, _ := g.Reach([]*GNode{x}, nil, nil)
+			again := false
+			for y := range s {
+				if y.N == nil {
+					continue
+				}
+				inspectNoLit(y.N, func(n ast.Node) bool {
+					if isRecvFrom(n, func(e ast.Expr) bool { return isField(info, e, fQueue) }) {
+						again = true
+					}
+					return true
+				})
+			}
+			if !again {
+				finals[x] = true
+			}
+		}
+		s, _ := g.ReachFromEntry(func(x *GNode) bool { return finals[x] }, nil)
+		c.Check(len(finals) >= 1 && !s[g.Exit], "R9", "sdk/trace|(*batchSpanProcessor).drainQueue|final exportSpans on every path to the exit", at(ix.M, dq.Pos()),
+			"the last partial batch is exported before the worker ends", "the worker can end with spans left in batch (lost at Shutdown)")
+	}
+	if pq := c.Fn(ix, "R9", "(*batchSpanProcessor).processQueue"); pq != nil {
+		g := ix.FG(pq)
+		fTimer := lookupField(ix.Pkg, "batchSpanProcessor", "timer")
+		ex := toSet(g.Match(isExport))
+		good := false
+		for _, x := range g.Nodes {
+			for _, e := range x.Succs {
+				if e.Comm == nil || e.Comm.Comm == nil {
+					continue
+				}
+				isTimer := false
+				ast.Inspect(e.Comm.Comm, func(n ast.Node) bool {
+					if u, ok := n.(*ast.UnaryExpr); ok && u.Op == token.ARROW {
+						if sel, ok := unparen(u.X).(*ast.SelectorExpr); ok && sel.Sel.Name == "C" && isField(info, sel.X, fTimer) {
+							isTimer = true
+						}
+					}
+					return true
+				})
+				if !isTimer {
+					continue
+				}
+				// from the timer clause, the next select round / exit is reached only through exportSpans
+				seen, _ := g.ReachFromEdge(e, func(y *GNode) bool { return ex[y] })
+				ok := !seen[g.Exit]
+				for y := range seen {
+					if y.N == nil && y.Blk != nil && y.Blk.Kind.String() == "ForBody" && y != e.To {
+						ok = false
+					}
+				}
+				good = ok
+			}
+		}
+		c.Check(good, "R9", "sdk/trace|(*batchSpanProcessor).processQueue|timer arm calls exportSpans", at(ix.M, pq.Pos()), "a partial batch is exported when the batch timeout fires", "a partial batch is never exported on timeout (spans wait for the batch to fill)")
+	}
+	if en := c.Fn(ix, "R9", "(*batchSpanProcessor).enqueue"); en != nil {
+		g := ix.FG(en)
+		fBlock := lookupField(ix.Pkg, "BatchSpanProcessorOptions", "BlockOnQueueFull")
+		blk, drop := ix.Func("(*batchSpanProcessor).enqueueBlockOnQueueFull"), ix.Func("(*batchSpanProcessor).enqueueDrop")
+		good := true
+		for _, pol := range []bool{true, false} {
+			env := func(e ast.Expr) (constant.Value, bool) {
+				if isField(info, e, fBlock) {
+					return constant.MakeBool(pol), true
+				}
+				return nil, false
+			}
+			seen := g.ReachUnder(env)
+			b, d := false, false
+			for x := range seen {
+				if x.N == nil {
+					continue
+				}
+				inspectNoLit(x.N, func(n ast.Node) bool {
+					if callToDecl(info, blk)(n) {
+						b = true
+					}
+					if callToDecl(info, drop)(n) {
+						d = true
+					}
+					return true
+				})
+			}
+			if b != pol || d == pol {
+				good = false
+			}
+		}
+		c.Check(good, "R9", "sdk/trace|(*batchSpanProcessor).enqueue|BlockOnQueueFull ⇒ blocking send, otherwise drop-and-count", at(ix.M, en.Pos()), "dispatch as configured", "the blocking mode option selects the wrong enqueue path")
 	}
 }
 
